@@ -34,4 +34,6 @@ EqContract == T.kind = "eq" =>
    /\ T.eq_aa /\ T.eq_bb                                    \* reflexive
    /\ (ExpectedEq => T.hash_equal)                          \* equal records have equal hashes
    /\ (ExpectedEq => T.in_set)                              \* ... and find each other in sets / dicts
+\* a record and something that is not a record: unequal both ways round, and asking is never an error
+ForeignContract == T.kind = "foreign" => (~T.raised /\ ~T.eq_ab /\ ~T.eq_ba /\ T.ne_ab)
 =============================================================================
